@@ -693,7 +693,9 @@ func (m *Message) GetDialog() (string, error) {
 	if err != nil {
 		return "", err
 	}
-	if from_addr_s < to_addr_s {
+	// order the two halves canonically; with equal addresses the tags decide, so that
+	// the identifier does not depend on the direction of the message
+	if from_addr_s < to_addr_s || (from_addr_s == to_addr_s && from_tag < to_tag) {
 		return NewDialog(callId,
 			fmt.Sprintf("%s-%s", from_tag, from_addr_s),
 			fmt.Sprintf("%s-%s", to_tag, to_addr_s)).String(), nil
